@@ -753,11 +753,20 @@ class LogOperationRecorder(BaseOperationRecorder):
 
             if self.http_detail_level == 'summary':
                 upayload = ""
-            elif self.http_maxlen and (len(payload) > self.http_maxlen):
-                upayload = (_ensure_unicode(payload[:self.http_maxlen]) +
-                            '...')
             else:
-                upayload = _ensure_unicode(payload)
+                # The payload may be ill-formed UTF-8, and truncating it may
+                # cut a multi-byte UTF-8 sequence. Logging the payload must
+                # not fail the operation.
+                if self.http_maxlen and (len(payload) > self.http_maxlen):
+                    payload = payload[:self.http_maxlen]
+                    trailer = '...'
+                else:
+                    trailer = ''
+                if isinstance(payload, bytes):
+                    upayload = payload.decode(
+                        'utf-8', errors='backslashreplace') + trailer
+                else:
+                    upayload = _ensure_unicode(payload) + trailer
             upayload = repr(upayload)
             if upayload.startswith("u'"):
                 upayload = upayload[1:]
